@@ -1258,6 +1258,146 @@ fn run_idle_backpressure(out: &mut Outcome) -> u64 {
     n
 }
 
+// ------------------------------------------------------------------------------------------------
+// heartbeats while the application is slow to receive.  The peer advertises idle time-out T and is a
+// conforming sender: it transfers exactly the deliveries the receiver's credit allows, in one burst, reads
+// everything the library writes, and keeps the connection alive from its side.  The application does not
+// call recv() for 3.5 x T.  With small session / link buffers the deliveries cannot all be handed on; that
+// must not keep the endpoint from sending a frame at least every T while the connection is open.
+pub async fn slow_app_scenario(t_ms: u32, credit: u32, sess_buf: usize, link_buf: usize) -> (Vec<(String, String)>, Vec<String>, Option<String>, bool) {
+    use fe2o3_amqp::link::receiver::CreditMode;
+    use fe2o3_amqp_types::definitions::Handle;
+    use fe2o3_amqp_types::messaging::message::__private::Serializable;
+    use fe2o3_amqp_types::messaging::Message;
+    let mut fails = vec![];
+    let (pipe, a, _b) = Pipe::new();
+    let mut auto = Auto::default();
+    auto.max_frame_size = 4096;
+    auto.idle_time_out = Some(t_ms);
+    let mut peer = Peer::new(pipe.clone(), 1, auto);
+    let h = Duration::from_secs(30);
+    let mut conn = match drive(&mut peer, Connection::builder().container_id("lib").max_frame_size(4096).open_with_stream(a), h).await {
+        Some(Ok(c)) => c,
+        _ => return (fails, trace_to_strings(&peer.trace), Some("slow-app: open failed".into()), false),
+    };
+    let mut session = match drive(&mut peer, Session::builder().buffer_size(sess_buf).begin(&mut conn), h).await {
+        Some(Ok(s)) => s,
+        _ => return (fails, trace_to_strings(&peer.trace), Some("slow-app: begin failed".into()), false),
+    };
+    let mut rb = fe2o3_amqp::Receiver::builder().name("r").source("q").credit_mode(CreditMode::Manual);
+    rb.buffer_size = link_buf;
+    let mut rx = match drive(&mut peer, rb.attach(&mut session), h).await {
+        Some(Ok(r)) => r,
+        _ => return (fails, trace_to_strings(&peer.trace), Some("slow-app: attach failed".into()), false),
+    };
+    if drive(&mut peer, rx.set_credit(credit), h).await.is_none() {
+        return (fails, trace_to_strings(&peer.trace), Some("slow-app: set_credit hangs".into()), false);
+    }
+    settle(&mut peer, 2).await;
+    let Some(link) = peer.links.last().cloned() else {
+        return (fails, trace_to_strings(&peer.trace), Some("slow-app: no link".into()), false);
+    };
+    let ch = peer.our_channel(link.lib_channel);
+    // the burst: exactly `credit` pre-settled one-frame deliveries
+    let t_burst = tokio::time::Instant::now();
+    for k in 0..credit {
+        let tr = Transfer {
+            handle: Handle(link.our_handle),
+            delivery_id: Some(k),
+            delivery_tag: Some(serde_bytes::ByteBuf::from(k.to_be_bytes().to_vec())),
+            message_format: Some(0),
+            settled: Some(true),
+            more: false,
+            rcv_settle_mode: None,
+            state: None,
+            resume: false,
+            aborted: false,
+            batchable: false,
+        };
+        let payload = serde_amqp::to_vec(&Serializable(Message::builder().value(k).build())).unwrap();
+        peer.send_perf(ch, Performative::Transfer(tr), &payload);
+    }
+    // the application is busy elsewhere for 3.5 T; the peer reads and sends its own keep-alives every 0.4 T
+    let step = Duration::from_millis((t_ms as u64 * 2 / 5).max(1));
+    let busy = Duration::from_millis(t_ms as u64 * 7 / 2);
+    while t_burst.elapsed() < busy {
+        tokio::time::sleep(step).await;
+        peer.pump();
+        peer.send_empty();
+    }
+    let t_end = tokio::time::Instant::now();
+    // frames the library wrote while the application was away: no gap of T without one
+    let t0 = peer.trace.first().map(|w| w.t).unwrap_or_default();
+    let _ = t0;
+    let starts: Vec<Duration> = lib_frame_starts(&pipe.log()).into_iter().map(|x| x.0).collect();
+    let window_from = peer.trace.iter().rev().find(|w| w.dir == Dirn::FromPeer && matches!(w.perf(), Some(Performative::Transfer(_)))).map(|w| w.t).unwrap_or_default();
+    let window_to = window_from + (t_end - t_burst);
+    let mut last = starts.iter().copied().filter(|t| *t <= window_from).last().unwrap_or(window_from);
+    let mut max_gap = Duration::ZERO;
+    for t in starts.iter().copied().filter(|t| *t > window_from && *t <= window_to).chain(std::iter::once(window_to)) {
+        if t - last > max_gap {
+            max_gap = t - last;
+        }
+        last = t;
+    }
+    let held_up = credit as usize > sess_buf + link_buf;
+    // (the permissive reading of "no interval of that length": a gap of exactly T passes, see the idle cases)
+    if max_gap > Duration::from_millis(t_ms as u64) {
+        fails.push((
+            "heartbeat-gap (application slow to receive)".to_string(),
+            format!(
+                "the peer advertises idle time-out {t_ms} ms; {credit} deliveries within the receiver's credit arrive at once (session buffer {sess_buf}, link buffer {link_buf}) and the application does not call recv() for {} ms: the library wrote no frame for {} ms",
+                busy.as_millis(),
+                max_gap.as_millis()
+            ),
+        ));
+    }
+    // afterwards the application receives everything and the connection is still usable
+    let mut got = 0u32;
+    for _ in 0..credit {
+        match drive(&mut peer, rx.recv::<u32>(), Duration::from_secs(2)).await {
+            Some(Ok(_)) => got += 1,
+            _ => break,
+        }
+    }
+    if got != credit {
+        fails.push((
+            "slow-app: deliveries lost".to_string(),
+            format!("idle time-out {t_ms} ms, credit {credit}, buffers {sess_buf}/{link_buf}: after the pause recv() returned {got} of {credit} deliveries"),
+        ));
+    }
+    (fails, trace_to_strings(&peer.trace), None, held_up)
+}
+
+fn run_slow_app(out: &mut Outcome) -> (u64, u64) {
+    let mut n = 0;
+    let mut held = 0;
+    for t_ms in [100u32, 1000] {
+        for credit in [2u32, 10] {
+            for (sb, lb) in [(1usize, 1usize), (2, 1), (1, 2), (64, 64)] {
+                let scen: Scenario<(Vec<(String, String)>, Vec<String>, Option<String>, bool)> = Arc::new(move || Box::pin(slow_app_scenario(t_ms, credit, sb, lb)));
+                let ex = run_exec(vec![], &RunCfg::none(), &scen);
+                n += 1;
+                match ex.out {
+                    Some((fails, trace, mach, held_up)) => {
+                        if held_up {
+                            held += 1;
+                        }
+                        if let Some(m) = mach {
+                            out.machinery_errors.push(m);
+                        }
+                        for (s, d) in fails {
+                            out.violation(s, d, json!({"part": "slow-app", "t": t_ms, "credit": credit, "sess_buf": sb, "link_buf": lb, "trace": trace}));
+                        }
+                    }
+                    None => out.machinery_errors.push(format!("slow-app scenario t={t_ms} credit={credit} bufs={sb}/{lb} died: {:?}", ex.panics)),
+                }
+            }
+        }
+    }
+    (n, held)
+}
+
 fn idle_cases(quick: bool) -> Vec<IdleCase> {
     let vals: Vec<Option<u32>> = if quick {
         vec![None, Some(0), Some(100), Some(60_000)]
@@ -1313,6 +1453,9 @@ pub fn run(ctx: &Ctx) -> Outcome {
     // ---- Part 2 first (cheap, fixed size)
     let n_bp = run_idle_backpressure(&mut out);
     out.set("idle_backpressure_cases", n_bp);
+    let (n_slow, n_slow_held) = run_slow_app(&mut out);
+    out.set("slow_application_heartbeat_cases", n_slow);
+    out.set("slow_application_cases_with_more_deliveries_than_buffer_room", n_slow_held);
     let cases = idle_cases(quick);
     let t_idle = Instant::now();
     let runs = par_map(&cases, ctx.threads, |_, c| if Instant::now() > deadline { None } else { Some(run_idle(*c)) });
@@ -1613,6 +1756,16 @@ fn replay(p: &std::path::Path, mut out: Outcome) -> Outcome {
             match run.obs {
                 Some(o) => (o.fails.into_iter().map(|(s, d)| (s, format!("{:?}: {d}", c))).collect(), o.trace, run.machinery),
                 None => (vec![], vec![], run.machinery),
+            }
+        }
+        ("slow-app", _) => {
+            let (t, credit, sb, lb) = (r["t"].as_u64().unwrap_or(100) as u32, r["credit"].as_u64().unwrap_or(2) as u32, r["sess_buf"].as_u64().unwrap_or(1) as usize, r["link_buf"].as_u64().unwrap_or(1) as usize);
+            println!("replaying slow-app t={t} credit={credit} buffers {sb}/{lb}");
+            let scen: Scenario<(Vec<(String, String)>, Vec<String>, Option<String>, bool)> = Arc::new(move || Box::pin(slow_app_scenario(t, credit, sb, lb)));
+            let ex = run_exec(vec![], &RunCfg::none(), &scen);
+            match ex.out {
+                Some((f, tr, m, _)) => (f, tr, m),
+                None => (vec![], vec![], Some(format!("slow-app scenario died: {:?}", ex.panics))),
             }
         }
         ("fill", _) => {
